@@ -168,7 +168,7 @@ def gen_jobs(ctx):
 
     quick = ctx.quick()
     # 1. exhaustive over the small alphabet (prefixes are covered by the checkpoints of step mode)
-    alpha = SMALL[:6] if quick else SMALL[:9]
+    alpha = SMALL[:6] if quick else SMALL[:8]
     depth = 2 if quick else 3
     seqs = [[]]
     for _ in range(depth):
@@ -193,7 +193,7 @@ def gen_jobs(ctx):
                 add('step', INITS[0], evs, 'exhaustive')
                 covered.add(json.dumps(evs))
     # 2. sampled histories of length 3-4 over the full small alphabet
-    n_s = 6 if quick else 150
+    n_s = 6 if quick else 120
     tries = 0
     while n_s > 0 and tries < 10000:
         tries += 1
@@ -204,7 +204,7 @@ def gen_jobs(ctx):
             add('step', init, evs, 'sampled-3-4')
             n_s -= 1
     # 3. random histories up to length 8 over 2-4 files, one at a time
-    n_r = 8 if quick else 250
+    n_r = 8 if quick else 200
     tries = 0
     while n_r > 0 and tries < 10000:
         tries += 1
@@ -217,7 +217,7 @@ def gen_jobs(ctx):
     # 4. bursts (real interleavings of handler, file worker, dispatcher + rate limiter, workspace worker).
     #    Parse failures are left to step mode: there the final state depends on the job-atomic schedule, so
     #    a burst could not be compared with a single prediction.
-    n_b = 10 if quick else 250
+    n_b = 10 if quick else 200
     tries = 0
     while n_b > 0 and tries < 10000:
         tries += 1
@@ -702,7 +702,8 @@ def run(ctx):
         'server_runs': len(runs), 'runs_by_kind': tags, 'cases_by_history_length': lens, 'events_by_op': ops,
         'diverged_cases': len(ev['div']), 'diverged_explained_by_modelled_open_defects': sum(len(v) for v in known_seen.values()),
         'diverged_unexplained': len(unexplained), 'diverged_burst_races_not_reproduced_by_model_schedules': race_unreproduced,
-        'mismatch_model': len(ev['model_mismatch']) - len(tolerated), 'mismatch_model_tolerated_noanchor_converged': len(tolerated),
+        'mismatch_model': len(corr), 'mismatch_model_tolerated_noanchor_converged': len(tolerated),
+        'observed_divergences_not_predicted_by_a_sampled_model_schedule': len([i for i in ev['div'] if i in ev['model_mismatch']]),
         'mismatch_fresh_reference': len(ev['fresh_mismatch']),
         'oracle_hypothesis_violations': len(ev['hyp_viol']),
         'oracle_file_lints': ev['n_fkeys'], 'oracle_aggregate_reports': ev['n_akeys'], 'distinct_diagnostics': ev['n_diags'],
